@@ -100,6 +100,10 @@ Definition echunk := (N * bytes)%type.
 
 Inductive eerr := ETooSmall | EPackFuel.
 
+(* iter().enumerate() from k *)
+Fixpoint enum_from {A} (k : N) (l : list A) : list (N * A) :=
+  match l with [] => [] | x :: t => (k, x) :: enum_from (k + 1) t end.
+
 (* chunk::batch_chunks: the source chunks in index order *)
 Definition raw_chunks (MAX : N) (d : bytes) : list bytes :=
   map (fun i => let '(s, e) := start_end MAX (lenN d) i in slice d s e)
@@ -117,7 +121,7 @@ Definition se_encrypt (C : codec) (MAX : N) (d : bytes) : (datamap * list echunk
                       let y := c_tr C (keys_of i hashes) x in
                       ({| i_index := i; i_dst := cH C y; i_src := nthN hashes i 0; i_size := lenN x |},
                        (i, y)))
-                   (combine (nseq (num_chunks MAX (lenN d))) raws) in
+                   (enum_from 0 raws) in
     inl (map fst out, map snd out).
 
 (* ant_protocol Chunk::new: the address is the hash of the content *)
